@@ -10,13 +10,18 @@ package main
 
 import (
 	"fmt"
+	"math"
+	"strings"
 
+	"github.com/EliCDavis/polyform/math/geometry"
 	"github.com/EliCDavis/polyform/modeling"
 	"github.com/EliCDavis/polyform/modeling/meshops"
+	"github.com/EliCDavis/polyform/nodes"
 	"github.com/EliCDavis/vector/vector2"
+	"github.com/EliCDavis/vector/vector3"
 )
 
-var moreOpNames = []string{"scalealongnormal", "scale2d", "normalize2d", "copyattr", "crop"}
+var moreOpNames = []string{"scalealongnormal", "scale2d", "normalize2d", "copyattr", "crop", "cropnode", "alongnormalnode"}
 
 func (c *Ctx) pickV2Attr(m modeling.Mesh) string {
 	names := m.Float2Attributes()
@@ -147,6 +152,69 @@ func (c *Ctx) applyMore(name string, m modeling.Mesh) (opRun, bool) {
 				return one(m.CopyFloat4Attribute(src, spec.name))
 			}
 		}), ok
+	case "cropnode": // CropAttribute3DNodeData.Process: attribute and box optional ("-" = input not wired)
+		nd := meshops.CropAttribute3DNodeData{Mesh: nodes.Value(m).Out()}
+		attrTok, boxTok := "-", "-"
+		if c.Rng.Intn(3) != 0 {
+			attrTok = c.pickV3Attr(m)
+			nd.Attribute = nodes.Value(attrTok).Out()
+		}
+		if c.Rng.Intn(4) != 0 {
+			box := geometry.NewAABB(c.smallV3().Scale(0.5), vector3.New(float64(c.Rng.Intn(7)), float64(c.Rng.Intn(7)), float64(c.Rng.Intn(7))))
+			a := attrTok
+			if a == "-" {
+				a = modeling.PositionAttribute
+			}
+			if m.HasFloat3Attribute(a) && m.AttributeLength() > 0 && c.Rng.Intn(2) == 0 {
+				// the box from one vertex to another: both lie ON its faces
+				d := m.Float3Attribute(a)
+				v, w := d.At(c.Rng.Intn(d.Len())), d.At(c.Rng.Intn(d.Len()))
+				if s := v.X() + v.Y() + v.Z() + w.X() + w.Y() + w.Z(); !math.IsNaN(s) && !math.IsInf(s, 0) {
+					c.Note("cropnode:vertex-to-vertex")
+					box = geometry.NewAABBFromPoints(v, w)
+				}
+			}
+			boxTok = mbbF(box)
+			nd.AABB = nodes.Value(box).Out()
+		} else {
+			c.Note("cropnode:no-box")
+		}
+		return runOp(name, fmt.Sprintf("%s %s %s", attrTok, boxTok, ms), false, func() []modeling.Mesh {
+			out, err := nd.Process()
+			if err != nil {
+				panic(err)
+			}
+			return one(out)
+		}), true
+	case "alongnormalnode": // ScaleAttributeAlongNormalNodeData.Process: every input optional
+		nd := meshops.ScaleAttributeAlongNormalNodeData{}
+		toks := []string{"-", "-", "-", "-"}
+		if c.Rng.Intn(3) != 0 {
+			toks[0] = c.pickV3Attr(m)
+			nd.AttributeToScale = nodes.Value(toks[0]).Out()
+		}
+		if c.Rng.Intn(3) != 0 {
+			toks[1] = c.pickV3Attr(m)
+			nd.NormalAttribute = nodes.Value(toks[1]).Out()
+		}
+		if c.Rng.Intn(3) != 0 {
+			amount := []float64{0, 0.5, -2, c.mfl()}[c.Rng.Intn(4)]
+			toks[2] = F(amount)
+			nd.Amount = nodes.Value(amount).Out()
+		}
+		if c.Rng.Intn(8) != 0 {
+			toks[3] = ms
+			nd.Mesh = nodes.Value(m).Out()
+		} else {
+			c.Note("alongnormalnode:no-mesh")
+		}
+		return runOp(name, strings.Join(toks, " "), false, func() []modeling.Mesh {
+			out, err := nd.Process()
+			if err != nil {
+				panic(err)
+			}
+			return one(out)
+		}), true
 	default: // crop, with the boundary boxes of applyOp
 		return c.applyOp("crop", m), true
 	}
@@ -156,6 +224,18 @@ func (c *Ctx) applyMore(name string, m modeling.Mesh) (opRun, bool) {
 // crop, meshes with Position + Normal for the normal offset, TexCoord for the 2-D maps.
 func (c *Ctx) moreStart(name string) modeling.Mesh {
 	switch name {
+	case "cropnode":
+		if c.Rng.Intn(4) == 0 {
+			return c.startMesh()
+		}
+		return c.genMesh(meshGen{topo: []modeling.Topology{modeling.PointTopology}, needPos: c.Rng.Intn(6) != 0, maxVerts: 20, materials: true})
+	case "alongnormalnode":
+		for i := 0; i < 4; i++ {
+			m := c.genMesh(meshGen{topo: topoAll, needPos: true, maxVerts: 20, materials: true})
+			if m.HasFloat3Attribute(modeling.NormalAttribute) || i == 3 {
+				return m
+			}
+		}
 	case "crop":
 		return c.genMesh(meshGen{topo: []modeling.Topology{modeling.PointTopology}, needPos: c.Rng.Intn(6) != 0, maxVerts: 20, materials: true})
 	case "scalealongnormal":
